@@ -4,12 +4,18 @@
    Gen/GenSites.v.  One definition per site; the file grows with every re-baselining.
    Executable definitions only.
 
-   semantic/resolver/names.rs  resolve_ident (commit d92afac): table references are tried relative to the
-     enclosing modules:   let mut rel = ident.clone().prepend(self.current_module_path.clone());
-                          for _ in 0..self.current_module_path.len() {
+   semantic/resolver/names.rs  resolve_ident (commits d92afac, rewritten by 7f02b48): names are tried relative to the
+     current module, then its parent, ...:
+                          let path = self.current_module_path.clone();
+                          for n in (1..=path.len()).rev() {                      -- table references
+                              let rel = ident.clone().prepend(path[..n].to_vec());
                               let decls = self.root_mod.module.lookup(&rel);
-                              if decls.len() == 1 { found = ..; break; }
-                              rel = rel.pop_front().1.unwrap(); }
+                              if decls.len() == 1 { found = ..; break; } }
+                          let mut res = self.resolve_ident_core(&ident.clone().prepend(path.clone()), None);
+                          for n in (0..path.len()).rev() {                       -- every other name
+                              if res.is_ok() { break; }
+                              res = self.resolve_ident_core(&ident.clone().prepend(path[..n].to_vec()), None); }
+     (7f02b48 removed the two `pop_front().1.unwrap()` of the earlier shape; the sites are now the slices `path[..n]`)
    sql/pq/preprocess.rs  only_equals (commit e9c9719):  `.. if name == "std.and" && args.len() == 2 =>
                               only_equals(&args[0]) && only_equals(&args[1])`
    sql/pq/preprocess.rs  distinct (bc8ad7d): `for (position, transform) in pipeline.clone().into_iter().enumerate()
@@ -23,27 +29,36 @@ From Coq Require Import List Arith Bool.
 From PV Require Import Model.Checked.
 Import ListNotations.
 
-(* ---- Ident = path ++ [name]; pop_front (prqlc-parser/src/parser/pr/ident.rs) ---- *)
+(* ---- Ident = path ++ [name]; prepend (prqlc-parser/src/parser/pr/ident.rs) ---- *)
 Record ident (A : Type) := Ident { path : list A; name : A }.
 Arguments Ident {A} path name.
 Arguments path {A} i.
 Arguments name {A} i.
-Definition pop_front {A : Type} (i : ident A) : A * option (ident A) :=
-  match path i with
-  | [] => (name i, None)
-  | p :: ps => (p, Some (Ident ps (name i)))
-  end.
 Definition prepend {A : Type} (i : ident A) (parts : list A) : ident A := Ident (parts ++ path i) (name i).
 
-(* the loop of resolve_ident: `found` = "lookup(&rel) has exactly one declaration"; k = current_module_path.len() *)
-Fixpoint rel_lookup {A : Type} (found : ident A -> bool) (k : nat) (rel : ident A) : out (option (ident A)) :=
-  match k with
+(* the first loop of resolve_ident (table references): `found` = "lookup(&rel) has exactly one declaration";
+   n runs from path.len() down to 1 *)
+Fixpoint rel_lookup {A : Type} (found : ident A -> bool) (mpath : list A) (n : nat) (i : ident A) : out (option (ident A)) :=
+  match n with
   | O => Ret None
-  | S k' => if found rel then Ret (Some rel)
-            else bind (unwrap (snd (pop_front rel))) (rel_lookup found k')
+  | S n' => bind (slice_to mpath n) (fun p =>
+            let rel := prepend i p in
+            if found rel then Ret (Some rel) else rel_lookup found mpath n' i)
   end.
 Definition resolve_relative {A : Type} (found : ident A -> bool) (module_path : list A) (i : ident A) : out (option (ident A)) :=
-  rel_lookup found (length module_path) (prepend i module_path).
+  rel_lookup found module_path (length module_path) i.
+
+(* the second loop (every other name): `ok` = "resolve_ident_core succeeds"; the full path first, then n from
+   path.len() - 1 down to 0; the answer is the last identifier tried and whether it resolved *)
+Fixpoint core_walk {A : Type} (ok : ident A -> bool) (mpath : list A) (n : nat) (i : ident A) (res : ident A * bool) : out (ident A * bool) :=
+  match n with
+  | O => Ret res
+  | S n' => if snd res then Ret res
+            else bind (slice_to mpath n') (fun p => let rel := prepend i p in core_walk ok mpath n' i (rel, ok rel))
+  end.
+Definition resolve_core_relative {A : Type} (ok : ident A -> bool) (module_path : list A) (i : ident A) : out (ident A * bool) :=
+  let full := prepend i module_path in
+  core_walk ok module_path (length module_path) i (full, ok full).
 
 (* ---- only_equals: args[0], args[1] under args.len() == 2 ---- *)
 Definition two_args {A : Type} (args : list A) : out (A * A) :=
